@@ -133,6 +133,26 @@ def run_case(recipe, cfg, chooser, *, real_codegen=False, iterations=1,
                         monitor["violations"].append({
                             "class": "codegen-parts-mismatch", "rank": r,
                             "detail": f"{sorted(real, key=repr)}"})
+                    else:
+                        # the program registered for a part must BE that part's
+                        # program: its outputs are the part's output names and
+                        # it reads nothing the executor will not pass
+                        for pid, p in npart.parts.items():
+                            knl = real[pid].program.default_entrypoint
+                            outs = sorted(a.name for a in knl.args
+                                          if getattr(a, "is_output", False))
+                            ins = sorted(a.name for a in knl.args
+                                         if not getattr(a, "is_output", False))
+                            bound = set(real[pid].bound_arguments)
+                            if outs != sorted(p.output_names) or not (
+                                    set(ins) <= set(p.all_input_names()) | bound):
+                                monitor["violations"].append({
+                                    "class": "part-program-does-not-match-part",
+                                    "rank": r,
+                                    "detail": f"part {pid}: kernel outputs {outs} "
+                                              f"inputs {ins}; part outputs "
+                                              f"{sorted(p.output_names)} inputs "
+                                              f"{sorted(p.all_input_names())}"})
                 rec["real_codegen"] = True
             prgs = {pid: StubProgram(r, p, npart, monitor)
                     for pid, p in npart.parts.items()}
